@@ -256,8 +256,8 @@ Lemma src_get_queue one dflt q0 ls s :
     match queue s with
     | [] => (match dflt with None => QNone | Some d => QRdd (parallelize d None) end, s)
     | b :: q' =>
-        if one then (QList b, mkNs (ctime s) (crdd s) q' (fdone s))
-        else (QList (concat (queue s)), mkNs (ctime s) (crdd s) [] (fdone s))
+        if one then (match b with Some x => QList x | None => QNone end, mkNs (ctime s) (crdd s) q' (fdone s))
+        else (QList (concat (map entry_items (queue s))), mkNs (ctime s) (crdd s) [] (fdone s))
     end.
 Proof.
   unfold src_get, queue_get_branch. destruct (queue s) as [|b q']; [reflexivity|].
@@ -273,7 +273,8 @@ Theorem queue_in_order g i dflt q0 :
     nth_error (ns (spec_hist g h (init g))) i = Some s /\
     queue s = skipn (length h) q0 /\
     (h <> [] -> crdd s = RRdd (match nth_error q0 (length h - 1) with
-                              | Some b => parallelize b None
+                              | Some (Some b) => parallelize b None
+                              | Some None => empty_rdd
                               | None => default_rdd dflt
                               end)).
 Proof.
@@ -293,7 +294,8 @@ Proof.
       * intros _. f_equal.
         assert (length (skipn (length h) q0) = 0%nat) by (rewrite E; reflexivity).
         rewrite skipn_length in H.
-        replace (nth_error q0 (length h)) with (@None (list val)) by (symmetry; apply nth_error_None; lia).
+        assert (Hnone : nth_error q0 (length h) = None) by (apply nth_error_None; lia).
+        rewrite Hnone.
         destruct dflt; reflexivity.
     + assert (Hn : nth_error q0 (length h) = Some b).
       { rewrite <- (firstn_skipn (length h) q0) at 1. rewrite E.
@@ -304,7 +306,7 @@ Proof.
         reflexivity. }
       split.
       * symmetry. apply (skipn_step _ _ _ _ E).
-      * intros _. rewrite Hn. reflexivity.
+      * intros _. rewrite Hn. destruct b; reflexivity.
 Qed.
 
 (* oneAtATime=False: the first interval gets everything that is queued, concatenated, once *)
@@ -314,7 +316,7 @@ Theorem queue_all_at_once g i dflt q0 :
     nth_error (ns (spec_hist g h (init g))) i = Some s /\
     queue s = (match h with [] => q0 | _ => [] end) /\
     (h <> [] -> crdd s = RRdd (match length h, q0 with
-                              | 1%nat, _ :: _ => parallelize (concat q0) None
+                              | 1%nat, _ :: _ => parallelize (concat (map entry_items q0)) None
                               | _, _ => default_rdd dflt
                               end)).
 Proof.
@@ -365,4 +367,126 @@ Theorem tick_denot g env t st :
 Proof.
   intros Hwf Hlen Hlt Hlive. exists (tick_spec g env t st). split; [apply tick_refines; auto|].
   intros i Hi. rewrite crdd_at_map, tick_spec_crdds. reflexivity.
+Qed.
+
+(* ---------- histories in which the graph grows (registration after start()) ---------- *)
+
+Definition shape (g : graph) (st : state) (c : Z) : Prop :=
+  length (ns st) = length g /\ forall i s, nth_error (ns st) i = Some s -> ctime s <= c.
+
+Lemma init_node_time nd : ctime (init_node nd) = 0.
+Proof. destruct nd as [[? ? ?|?]| | |]; reflexivity. Qed.
+
+Lemma shape_extend g st c new : 0 <= c -> shape g st c -> shape (g ++ new) (extend_state st new) c.
+Proof.
+  intros Hc [Hlen Ht]. split.
+  - simpl. rewrite !app_length, map_length, Hlen. reflexivity.
+  - intros i s Hs. simpl in Hs.
+    destruct (Nat.lt_ge_cases i (length (ns st))) as [Hl|Hl].
+    + rewrite nth_error_app1 in Hs by auto. eauto.
+    + rewrite nth_error_app2 in Hs by auto. rewrite nth_error_map in Hs.
+      destruct (nth_error new (i - length (ns st))) as [nd|]; simpl in Hs; [|discriminate].
+      inversion Hs; subst s. rewrite init_node_time. exact Hc.
+Qed.
+
+Lemma shape_tick g env t st c : shape g st c -> c < t -> shape g (tick_spec g env t st) t.
+Proof.
+  intros _ _. split; [apply tick_spec_len|].
+  intros i s Hs. apply tick_spec_time in Hs. lia.
+Qed.
+
+Lemma shape_weaken g st c c' : shape g st c -> c <= c' -> shape g st c'.
+Proof. intros [Hl Ht] Hc. split; auto. intros i s Hs. specialize (Ht i s Hs). lia. Qed.
+
+(* the machine refines the specification along histories in which the graph grows *)
+Theorem events_refine : forall h g st c,
+  graphs_ok g h -> 0 <= c -> shape g st c -> ev_increasing c h ->
+  run_events g st h = Some (spec_events g st h).
+Proof.
+  induction h as [|[t env|new] h IH]; intros g st c Hok Hc Hsh Hinc; simpl; auto.
+  - destruct Hok as [Hwf [Hal Hok]]. destruct Hinc as [Hct Hinc]. destruct Hsh as [Hlen Ht].
+    rewrite tick_refines; auto.
+    + apply (IH g _ t); auto; try lia. apply (shape_tick g env t st c); auto. split; auto.
+    + intros i s Hs. specialize (Ht i s Hs). lia.
+    + apply Hal. apply delivered_defined; auto.
+  - destruct Hok as [_ [_ Hok]]. apply (IH (g ++ new) _ c); auto. apply shape_extend; auto.
+Qed.
+
+(* invariants of the specification along such a history *)
+Fixpoint last_time (c : Z) (h : list hevent) : Z :=
+  match h with
+  | [] => c
+  | HTick t _ :: h' => last_time t h'
+  | HReg _ :: h' => last_time c h'
+  end.
+
+Lemma events_inv : forall h g st c,
+  graphs_ok g h -> 0 <= c -> shape g st c -> ev_increasing c h ->
+  let '(g1, st1) := spec_events g st h in
+  wf g1 /\ always_live g1 /\ shape g1 st1 (last_time c h) /\ 0 <= last_time c h /\
+  exists new, g1 = g ++ new.
+Proof.
+  induction h as [|[t env|new] h IH]; intros g st c Hok Hc Hsh Hinc; simpl.
+  - destruct Hok as [Hwf [Hal _]]. repeat split; auto; try apply Hsh. exists []. rewrite app_nil_r; auto.
+  - destruct Hok as [Hwf [Hal Hok]]. destruct Hinc as [Hct Hinc].
+    apply (IH g _ t); auto; try lia. apply (shape_tick g env t st c); auto.
+  - destruct Hok as [_ [_ Hok]].
+    pose proof (IH (g ++ new) (extend_state st new) c Hok Hc (shape_extend g st c new Hc Hsh) Hinc) as H.
+    destruct (spec_events (g ++ new) (extend_state st new) h) as [g1 st1].
+    destruct H as [H1 [H2 [H3 [H4 [more H5]]]]]. repeat split; auto; try apply H3.
+    exists (new ++ more). rewrite H5, app_assoc. reflexivity.
+Qed.
+
+Lemma increasing_last : forall h c t env, ev_increasing c (h ++ [HTick t env]) -> last_time c h < t.
+Proof.
+  induction h as [|[t0 env0|new] h IH]; intros c t env H; simpl in *.
+  - lia.
+  - destruct H as [_ H]. eapply IH; eauto.
+  - eapply IH; eauto.
+Qed.
+
+Lemma graphs_ok_app_l : forall h g h2, graphs_ok g (h ++ h2) -> graphs_ok g h.
+Proof.
+  induction h as [|[t env|new] h IH]; intros g h2 H; simpl in *.
+  - destruct h2 as [|[? ?|?] ?]; simpl in H; destruct H as [H1 [H2 _]]; auto.
+  - destruct H as [H1 [H2 H3]]. split; auto. split; auto. eapply IH; eauto.
+  - destruct H as [H1 [H2 H3]]. split; auto. split; auto. eapply IH; eauto.
+Qed.
+Lemma ev_increasing_app_l : forall h c h2, ev_increasing c (h ++ h2) -> ev_increasing c h.
+Proof.
+  induction h as [|[t env|new] h IH]; intros c h2 H; simpl in *; auto.
+  - destruct H; split; auto. eapply IH; eauto.
+  - eapply IH; eauto.
+Qed.
+
+(* whatever was registered, and whenever: in every interval, every node registered SO FAR calls get()
+   exactly once (sources) / has its function called exactly once (all others) and ends at time t --
+   in particular an action or branch registered after start() takes part from the next interval on *)
+Theorem tick_after_events g st c h t env :
+  graphs_ok g (h ++ [HTick t env]) -> 0 <= c -> shape g st c -> ev_increasing c (h ++ [HTick t env]) ->
+  let '(g1, st1) := spec_events g st h in
+  run_events g st h = Some (g1, st1) /\
+  (exists new, g1 = g ++ new) /\
+  exists st2 evs, tick g1 env t st1 = Some st2 /\ log st2 = log st1 ++ evs /\
+    length (ns st2) = length g1 /\
+    (forall i s, nth_error (ns st2) i = Some s -> ctime s = t) /\
+    (forall i, pops i evs = (if is_src g1 i then 1 else 0)%nat) /\
+    (forall i, fires i evs = (if is_fn g1 i then 1 else 0)%nat) /\
+    (forall i nd, nth_error g1 i = Some nd ->
+       crdd_at st2 i = node_val nd t (delivered g1 env st1 i) (map crdd (ns st2))).
+Proof.
+  intros Hok Hc Hsh Hinc.
+  pose proof (events_refine h g st c (graphs_ok_app_l _ _ _ Hok) Hc Hsh (ev_increasing_app_l _ _ _ Hinc)) as Href.
+  pose proof (events_inv h g st c (graphs_ok_app_l _ _ _ Hok) Hc Hsh (ev_increasing_app_l _ _ _ Hinc)) as Hinv.
+  destruct (spec_events g st h) as [g1 st1].
+  destruct Hinv as [Hwf [Hal [[Hlen Ht] [_ Hext]]]].
+  split; auto. split; auto.
+  pose proof (increasing_last h c t env Hinc) as Hlt.
+  assert (Hlt' : forall i s, nth_error (ns st1) i = Some s -> ctime s < t)
+    by (intros i s Hs; specialize (Ht i s Hs); lia).
+  assert (Hlive : live g1 t (delivered g1 env st1)) by (apply Hal; apply delivered_defined; auto).
+  destruct (tick_events g1 env t st1 Hwf Hlen Hlt' Hlive) as [st2 [evs [E [Hlog [Hp [Hf _]]]]]].
+  destruct (tick_inv g1 env t st1 Hwf Hlen Hlt' Hlive) as [st2' [E' [Hlen2 [Ht2 Hsol]]]].
+  rewrite E in E'. inversion E'; subst st2'.
+  exists st2, evs. repeat split; auto.
 Qed.
